@@ -79,7 +79,7 @@ def gwDump (w : World) : String :=
       let ev := (if a.evIn then 1 else 0) + (if a.evOut then 2 else 0) + (if a.evRdhup then 8 else 0)
       s!"S{gwOptIdx c.link.host}.{gwOptIdx c.link.proc}.{gwCState c.link.state}.{a.reconnects}." ++
       s!"{if c.link.fd then 1 else 0}.{ev}.{if a.started then 1 else 0}.{a.wbLen}.{a.bytesOut}." ++
-      s!"{a.readTs}.{a.writeTs}.{a.dispatched};"
+      s!"{a.readTs}.{a.writeTs}.{a.dispatched}.{(if a.headSent then 1 else 0) + (if a.short then 2 else 0)};"
   String.join hosts ++ String.join slots ++
     s!"G{w.globalActive},F{w.curFds},L{w.lastUsed},N{if w.noteSent then 1 else 0},T{w.now}"
 
